@@ -106,8 +106,12 @@ def _mk(kind, coef, k, tb, depth, named):
     if kind == 14:
         return h.Literal("literal %d" % coef), ("ctrl", "literal", "literal %d" % coef)
     if kind == 15:
-        t = hs.Tran(tstop=v, name="tr%d" % k)
-        return hs.Meas(analysis=t, expr="e", name="m%d" % k), ("ctrl", "meas", {"analysis_type": "tran", "name": "m%d" % k, "expr": "e"})
+        # a measurement given its analysis as an OBJECT, of each kind (the expected type name is written out here)
+        lg = hs.LogSweep(start=v, stop=v2, npts=3)
+        t, tname = [(hs.Tran(tstop=v, name="tr%d" % k), "tran"), (hs.Dc(var="x", sweep=sw, name="dcm%d" % k), "dc"),
+                    (hs.Ac(sweep=lg, name="acm%d" % k), "ac"), (hs.Op(name="opm%d" % k), "op"),
+                    (hs.Noise(output=tb.s, input_source="vsrc", sweep=lg, name="nzm%d" % k), "noise")][k % 5]
+        return hs.Meas(analysis=t, expr="e", name="m%d" % k), ("ctrl", "meas", {"analysis_type": tname, "name": "m%d" % k, "expr": "e"})
     return hs.Op(), ("an", "op", None, {})
 
 
@@ -289,7 +293,7 @@ def _bad_tb(nports, w, bp=False):
 
 @harness("C17", args="k1: int, k2: int, k3: int, coef: int, k0: int, style: int, depth: int, named: bool, multi: int",
          pre=[f"0 <= k1 < {NK}", f"-1 <= k2 < {NK}", f"-1 <= k3 < {NK}", "-5 <= coef <= 40", "0 <= k0 <= 11", "0 <= style <= 2", "0 <= depth <= 2", "0 <= multi <= 2"],
-         tiers={"quick": {"timeout": 170, "pre": ["k3 == -1", "coef == 7 or coef == -3", "depth <= 1", "multi == 0 or k2 == -1", "k0 == 1 or k0 == 6 or ((k1 == 11 or k1 == 4) and k0 <= 5)", "k2 in (-1, 0, 2, 5, 8, 11, 13, 14)"],
+         tiers={"quick": {"timeout": 170, "pre": ["k3 == -1", "coef == 7 or coef == -3", "depth <= 1", "multi == 0 or k2 == -1", "k0 == 1 or k0 == 6 or ((k1 == 11 or k1 == 4 or k1 == 15) and k0 <= 5)", "k2 in (-1, 0, 2, 5, 8, 11, 13, 14)"],
                           "parts": parts_product(parts_over("style", range(3)), [("g%d" % g, "%d <= k1 < %d" % (3 * g, 3 * g + 3)) for g in range(6)])},
                 "thorough": {"timeout": 600, "pre": ["coef % 9 == 7 or coef == -3", "multi == 0 or k3 == -1"],
                              "parts": parts_product(parts_over("style", range(3)), parts_over("k1", range(NK)), parts_over("k2", range(-1, NK)), parts_over("k0", range(12)))}},
